@@ -263,7 +263,16 @@ fn run_c10_with(ctx: &mut Ctx, big: bool) -> R {
     let frame_bytes = start_bytes[meta0.audio_start..].to_vec();
     ctx.describe(|| format!("{} frames={} file={}B metadata={}B blocks={:?}", cfg.describe(), frames, start_bytes.len(), meta0.audio_start, meta0.blocks.iter().map(|b| (b.kind, b.len)).collect::<Vec<_>>()));
     let ben = if big { Benign::none() } else { Benign::draw(&ch) };
-    let mut cur_file = ctx.disk.create(start_bytes.clone());
+    // the stream may be embedded: foreign bytes in front of the `fLaC` tag, handle positioned on the tag
+    let off = if big { 0 } else { *ch.pick("c10.prefix", &[0usize, 0, 0, 7, 100]) };
+    if off > 0 {
+        probe("c10_stream_not_at_offset_0");
+    }
+    let mut media0 = vec![0xA5u8; off];
+    media0.extend_from_slice(&start_bytes);
+    let mut cur_file = ctx.disk.create(media0);
+    // the file a step works on keeps `cur_off` foreign bytes in front (a rebuilt file has none)
+    let mut cur_off = off;
     let steps = 1 + ch.draw("c10.steps", if big { 3 } else { 12 });
     for step in 0..steps {
         let edit = if big {
@@ -283,7 +292,7 @@ fn run_c10_with(ctx: &mut Ctx, big: bool) -> R {
         let rebuilt_file = ctx.disk.create(Vec::new());
         let captured: RefCell<Option<Vec<Block>>> = RefCell::new(None);
         let disk = ctx.disk.clone();
-        let orig = ctx.disk.open(cur_file, ben);
+        let orig = ctx.disk.open(cur_file, ben).set_pos(cur_off as u64);
         ctx.note(|| format!("step {step}: update_file with edit {edit:?} on a {}-byte file", before.len()));
         let res = catch_unwind(AssertUnwindSafe(|| {
             update_file::<_, _, CbErr>(
@@ -334,13 +343,16 @@ fn run_c10_with(ctx: &mut Ctx, big: bool) -> R {
                 if after.len() != before.len() {
                     return viol("audio-moved", format!("step {step} edit {edit:?}: in-place update changed the file length {} -> {}", before.len(), after.len()));
                 }
-                let Ok(m) = refflac::parse_meta(&after, 0) else {
+                if after[..cur_off] != before[..cur_off] {
+                    return viol("audio-moved", format!("step {step} edit {edit:?}: the {cur_off} foreign bytes in front of the stream changed"));
+                }
+                let Ok(m) = refflac::parse_meta(&after, cur_off) else {
                     return viol("meta-mismatch", format!("step {step} edit {edit:?}: metadata unparseable after an in-place update"));
                 };
                 if after[m.audio_start..] != frame_bytes[..] {
                     return viol("audio-moved", format!("step {step} edit {edit:?}: bytes from the first frame on changed (metadata now ends at {})", m.audio_start));
                 }
-                match BlockList::read(Cursor::new(&after)) {
+                match BlockList::read(Cursor::new(&after[cur_off..])) {
                     Ok(bl) => {
                         let got = blocks_of(&bl);
                         if !same_apart_from_first_padding(&got, &edited) {
@@ -376,10 +388,11 @@ fn run_c10_with(ctx: &mut Ctx, big: bool) -> R {
                     );
                 }
                 cur_file = rebuilt_file;
+                cur_off = 0;
             }
         }
         // the audio still decodes to the same PCM
-        let now = ctx.disk.data(cur_file);
+        let now = ctx.disk.data(cur_file)[cur_off..].to_vec();
         let d = decode_all(Cursor::new(&now), RKind::SampleToEnd, &ch, cfg.block as usize);
         if d.err.is_some() || d.samples != pcm.inter {
             return viol("audio-moved", format!("step {step} edit {edit:?}: file no longer decodes to the same PCM ({:?})", d.err));
